@@ -9,7 +9,7 @@ PROP = 'C16'
 LEAN_MODULES = ['BR.Props.C16']
 THEOREMS = ['BR.C16.choose_fold', 'BR.C16.insert_attaches_cheapest_free', 'BR.C16.treeInv_insert',
             'BR.C16.tree_rooted_acyclic_cost_consistent', 'BR.C16.pathTo_shape', 'BR.C16.path_shape', 'BR.C16.pathTo_cost',
-            'BR.C16.generated_cost_is_path_length']
+            'BR.C16.generated_cost_is_path_length', 'BR.C16.cost_ge_parent', 'BR.C16.generated_cost_nonneg']
 TIE = ('K: hand-written model lean/BR/Model/RRT.lean of generalGenerateTree / findPathGeneral in which generator, distance, collision and nearest-neighbour answers are an oracle trace; '
        'every run records that trace from the real planner (seeded callbacks, R6Tree wrapped to log node ids), replays it through the compiled model and compares parent and cost of every '
        'inserted node and the returned path; the tree invariants are recomputed on the real tree with a brute-force nearest-neighbour search.')
